@@ -234,6 +234,8 @@ pub struct App {
     pub side: Side,
     pub pair: u64,
     pub connected: bool,
+    /// the peer's transport parameters have been processed
+    pub hs_data_ready: bool,
     pub lost: Vec<String>,
     pub lost_count: u32,
     pending_plans: VecDeque<StreamPlan>,
@@ -270,6 +272,7 @@ impl App {
             side,
             pair,
             connected: false,
+            hs_data_ready: false,
             lost: vec![],
             lost_count: 0,
             pending_plans,
@@ -344,7 +347,8 @@ impl App {
             return;
         }
         match ev {
-            Event::HandshakeDataReady | Event::HandshakeConfirmed => {}
+            Event::HandshakeDataReady => self.hs_data_ready = true,
+            Event::HandshakeConfirmed => {}
             Event::Connected => {
                 self.hist(|| "Connected".into());
                 if self.connected {
